@@ -25,6 +25,9 @@ Definition chk (ops : list (bool * nat)) (cin cout : sx) : nat :=
   let m := match dops ops cin with Some m => if tequiv (sx2t m) (sx2t cout) then 0 else 1 | None => 2 end in
   let r := match tDs ops (sx2t cin) with Some r => if tequiv r (sx2t cout) then 0 else 1 | None => 2 end in
   m * 3 + r.
+Definition chk_list (ops : list (bool * nat)) (cin cout : list sx) : nat :=
+  if negb (Nat.eqb (length cin) (length cout)) then 8 else
+  fold_left Nat.max (map (fun p => chk ops (fst p) (snd p)) (combine cin cout)) 0.
 Definition chk_refused (ops : list (bool * nat)) (cin : sx) : nat :=
   match dops ops cin with None => 0 | Some _ => 1 end.
 """
@@ -47,7 +50,20 @@ def gen_case(rng, tier, idx):
         tree = {"k": "mul", "a": [g.fld(), {"k": "fn", "f": rng.choice(["sin", "cos", "exp"]), "a": g.fld()}]} \
             if rng.random() < 0.5 else tree
     ops = [[lg, rng.randrange(dim)] for _ in range(rng.randint(1, maxops))]
-    return {"kind": kind, "dim": dim, "tree": tree, "ops": ops, "seed": rng.randrange(1 << 30)}
+    case = {"kind": kind, "dim": dim, "tree": tree, "ops": ops, "seed": rng.randrange(1 << 30)}
+    if kind == "supported" and rng.random() < 0.12:
+        g2 = X.SxGen(rng, dim=dim, lg=lg, max_order=1)
+        c = rng.random()
+        if c < 0.3:
+            case["tensor"] = {"k": "vecfn", "f": "F"}
+        elif c < 0.6:
+            case["tensor"] = {"k": "tuple", "items": [g2.expr(2) for _ in range(rng.randint(2, 3))]}
+        else:
+            case["tensor"] = {"k": "matrix", "rows": [[g2.expr(2) for _ in range(rng.randint(2, 3))] for _ in range(rng.randint(1, 2))]}
+            w = len(case["tensor"]["rows"][0])
+            case["tensor"]["rows"] = [r[:w] + [g2.fld()] * (w - len(r)) for r in case["tensor"]["rows"]]
+        case["kind"] = "tensor"
+    return case
 
 
 def has_fn_of_field(j):
@@ -112,6 +128,13 @@ def main(run, replay=None):
             if out["err"] == "not-implemented":
                 terms.append("chk_refused %s %s" % (coq_ops(c["ops"]), X.coq_sx(r["in"])))
                 owners.append((ci, "refused"))
+            continue
+        if r["in"].get("k") == "mat":
+            fin = [e for row in r["in"]["rows"] for e in row]
+            fout = [e for row in out["rows"] for e in row] if out.get("k") == "mat" else [out]
+            terms.append("chk_list %s %s %s" % (coq_ops(c["ops"]), coq_list([X.coq_sx(e) for e in fin]),
+                                               coq_list([X.coq_sx(e) for e in fout])))
+            owners.append((ci, "value"))
             continue
         if out.get("k") == "mat":
             continue
@@ -243,6 +266,8 @@ def main(run, replay=None):
         if r is None or "crash" in r:
             continue
         t = r["in"]
+        if t.get("k") == "mat":
+            t = {"k": "add", "a": [e for row in t["rows"] for e in row]}
         sz = X.sx_size(t)
         b = "1-3" if sz <= 3 else "4-9" if sz <= 9 else "10-24" if sz <= 24 else "25+"
         size_hist[b] = size_hist.get(b, 0) + 1
@@ -262,7 +287,8 @@ def main(run, replay=None):
         "traces_validated_against_impl": stats["model_agrees"],
         "decisions": stats,
         "input_kinds": {"supported": sum(1 for c in cases if c["kind"] == "supported"),
-                        "fn_of_field": sum(1 for c in cases if c["kind"] == "fn_of_field")},
+                        "fn_of_field": sum(1 for c in cases if c["kind"] == "fn_of_field"),
+                        "tensor": sum(1 for c in cases if c["kind"] == "tensor")},
         "size_histogram": size_hist, "operator_chain_length": ops_hist, "dimension": dims, "node_kinds": node_hist,
         "samples": cases[:2],
         "exhaustive": False,
